@@ -266,21 +266,32 @@ impl TimeZone {
             return Err(TemporalError::range().with_message("Rejecting ambiguous time zones."));
         }
 
-        // NOTE: `before` and `after` are not searched for among wall-clock times (a probe a few
-        // hours away can itself fall into the gap and has no instant at all); the offsets are taken
-        // one day before and one day after `iso` read as if it were UTC. Both instants always
-        // exist, and for offsets and gaps of up to a day they lie on either side of the
-        // transition that skips `iso`.
+        // NOTE: `before` and `after` are the offsets on either side of the transition that skips
+        // `iso`. They are not searched for among wall-clock times (a probe a few hours away can
+        // itself fall into the gap and has no instant at all) but found by walking back through
+        // the zone's offset periods; a provider that does not report where a period starts is
+        // asked for the offsets one day before and one day after `iso` read as if it were UTC,
+        // which lie on either side of that transition unless another one is close by.
         // 6. Let epochNanoseconds be GetUTCEpochNanoseconds(isoDateTime).
         let epoch_nanoseconds = iso.as_unchecked_nanoseconds();
-        // 7. Let dayBefore be epochNanoseconds - nsPerDay; if it is not valid, throw a RangeError exception.
-        let day_before = EpochNanoseconds::try_from(epoch_nanoseconds - NS_PER_DAY as i128)?;
-        // 8. Let dayAfter be epochNanoseconds + nsPerDay; if it is not valid, throw a RangeError exception.
-        let day_after = EpochNanoseconds::try_from(epoch_nanoseconds + NS_PER_DAY as i128)?;
-        // 12. Let offsetBefore be GetOffsetNanosecondsFor(timeZone, dayBefore).
-        let offset_before = self.get_offset_nanos_for(day_before.0, provider)?;
-        // 13. Let offsetAfter be GetOffsetNanosecondsFor(timeZone, dayAfter).
-        let offset_after = self.get_offset_nanos_for(day_after.0, provider)?;
+        let (offset_before, offset_after) =
+            match self.offsets_around_skipped_time(epoch_nanoseconds, provider)? {
+                Some((offset_before, offset_after, _)) => (offset_before, offset_after),
+                None => {
+                    // 7. Let dayBefore be epochNanoseconds - nsPerDay; if it is not valid, throw a RangeError exception.
+                    let day_before =
+                        EpochNanoseconds::try_from(epoch_nanoseconds - NS_PER_DAY as i128)?;
+                    // 8. Let dayAfter be epochNanoseconds + nsPerDay; if it is not valid, throw a RangeError exception.
+                    let day_after =
+                        EpochNanoseconds::try_from(epoch_nanoseconds + NS_PER_DAY as i128)?;
+                    (
+                        // 12. Let offsetBefore be GetOffsetNanosecondsFor(timeZone, dayBefore).
+                        self.get_offset_nanos_for(day_before.0, provider)?,
+                        // 13. Let offsetAfter be GetOffsetNanosecondsFor(timeZone, dayAfter).
+                        self.get_offset_nanos_for(day_after.0, provider)?,
+                    )
+                }
+            };
         // 14. Let nanoseconds be offsetAfter - offsetBefore.
         let nanoseconds = offset_after - offset_before;
         // 15. Assert: abs(nanoseconds) ≤ nsPerDay.
@@ -334,6 +345,43 @@ impl TimeZone {
             .ok_or_else(|| TemporalError::range().with_message("Skipped time could not be resolved."))
     }
 
+    /// The UTC offsets (in nanoseconds) in force before and after the transition that skips the
+    /// wall-clock reading `local` (epoch nanoseconds of the reading as if it were UTC) and the
+    /// epoch nanoseconds of that transition, or `None` when the provider does not report the
+    /// starts of the offset periods.
+    fn offsets_around_skipped_time(
+        &self,
+        local: i128,
+        provider: &impl TimeZoneProvider,
+    ) -> TemporalResult<Option<(i128, i128, i128)>> {
+        const MAX_PERIODS: usize = 16;
+        let TimeZone::IanaIdentifier(identifier) = self else {
+            return Ok(None);
+        };
+        // Start in a period whose readings are later than `local` and walk back, period by
+        // period, to the transition whose two readings enclose `local`.
+        let mut after =
+            provider.get_named_tz_offset_nanoseconds(identifier, local + 2 * NS_PER_DAY as i128)?;
+        for _ in 0..MAX_PERIODS {
+            let Some(transition) = after.transition_epoch else {
+                return Ok(None);
+            };
+            let transition = i128::from(transition) * 1_000_000_000;
+            let offset_after = i128::from(after.offset) * 1_000_000_000;
+            if transition + offset_after <= local {
+                // `local` is a reading of this period or of a later one: it is not skipped here.
+                return Ok(None);
+            }
+            let before = provider.get_named_tz_offset_nanoseconds(identifier, transition - 1)?;
+            let offset_before = i128::from(before.offset) * 1_000_000_000;
+            if transition + offset_before <= local {
+                return Ok(Some((offset_before, offset_after, transition)));
+            }
+            after = before;
+        }
+        Ok(None)
+    }
+
     pub(crate) fn get_start_of_day(
         &self,
         iso_date: &IsoDate,
@@ -362,7 +410,18 @@ impl TimeZone {
         // possibleEpochNsAfter is not empty (i.e., isoDateTimeAfter represents the first local time
         // after the transition).
 
-        // NOTE: midnight is skipped. Resolving it as `compatible` shifts it forward by the width
+        // NOTE: midnight is skipped: the day starts at the transition that skips it, as long as
+        // the readings that follow the transition still fall on this date.
+        let midnight = iso.as_unchecked_nanoseconds();
+        if let Some((_, offset_after, transition)) =
+            self.offsets_around_skipped_time(midnight, provider)?
+        {
+            if transition + offset_after - midnight < NS_PER_DAY as i128 {
+                return EpochNanoseconds::try_from(transition);
+            }
+        }
+
+        // NOTE: Resolving the skipped midnight as `compatible` shifts it forward by the width
         // of the gap, which lands after the transition whatever that width is (a wall-clock
         // probe a fixed number of hours later can itself fall into a wide gap); the offset
         // period containing that instant starts at the transition, i.e. at the first instant
